@@ -1135,3 +1135,7 @@ mod tests {
         assert!(all_packs.is_empty());
     }
 }
+
+#[cfg(kani)]
+#[path = "/verif/harness/commands_check.rs"]
+pub(crate) mod verif_harness;
